@@ -484,6 +484,63 @@ pub fn without_continue_g(pattern: &str) -> Option<String> {
     }
 }
 
+/// The yielded sequence is the same whichever `Iterator` method consumes it: after `taken` items
+/// were taken with `next()`, `count()`, `last()` and `nth(j)` must agree with the sequence that
+/// stepping with `next()` alone yields (an iterator type may override those methods).
+pub fn consumption_check(re: &Regex, text: &str, full: &[Item], taken: usize, j: usize) -> Option<Found> {
+    if full.iter().any(|i| matches!(i, Item::Panic(_))) || taken > full.len() {
+        return None;
+    }
+    let item_of = |r: Option<fancy_regex::Result<fancy_regex::Match<'_>>>| -> Option<Item> {
+        r.map(|r| match r {
+            Ok(m) => Item::Match(m.start(), m.end()),
+            Err(e) => Item::Err(err_kind(&e)),
+        })
+    };
+    budget::install();
+    let rest = &full[taken..];
+    for mode in 0..3 {
+        let mut it = re.find_iter(text);
+        let mut ok_prefix = true;
+        for k in 0..taken {
+            budget::arm(budget::DEFAULT_INSNS, 4);
+            match guarded_plain(|| it.next()) {
+                Outcome::Ok(x) => {
+                    if item_of(x).as_ref() != full.get(k) {
+                        ok_prefix = false;
+                    }
+                }
+                _ => ok_prefix = false,
+            }
+        }
+        if !ok_prefix {
+            budget::disarm();
+            return None; // the stepping itself differs: reported by the main check
+        }
+        budget::arm(budget::DEFAULT_INSNS, 2 * (text.chars().count() as u64 + 3) + 6);
+        let (what, got, want): (&str, Outcome<String>, String) = match mode {
+            0 => ("count()", guarded_plain(|| format!("{}", it.count())), format!("{}", rest.len())),
+            1 => ("last()", guarded_plain(|| format!("{:?}", item_of(it.last()))), format!("{:?}", rest.last().cloned())),
+            _ => ("nth(j)", guarded_plain(|| format!("{:?}", item_of(it.nth(j)))), format!("{:?}", rest.get(j).cloned())),
+        };
+        budget::disarm();
+        match got {
+            Outcome::Ok(g) if g == want => {}
+            Outcome::Panic(m) if m == budget::INSN_PAYLOAD => return None,
+            other => {
+                return Some(Found {
+                    class: "iterator-method-disagrees-with-next".into(),
+                    detail: format!(
+                        "after {} item(s) taken with next(), {}{} returned {} ; stepping with next() yields {:?}, so it must be {}",
+                        taken, what, if mode == 2 { format!(" with j = {}", j) } else { String::new() }, other.show(), full, want
+                    ),
+                })
+            }
+        }
+    }
+    None
+}
+
 /// In-run invariants of the statement that do not need the model.
 pub fn invariants(text: &str, h: &History) -> Option<(&'static str, String)> {
     let chars = text.chars().count();
@@ -559,6 +616,7 @@ pub struct Stats {
     pub budget_skipped: u64,
     pub independent_g_models: u64,
     pub shifted_searches: u64,
+    pub consumption_checks: u64,
     pub shifted_not_comparable: u64,
     pub keepout_overlaps_tolerated: u64,
     pub nontrivial: bool,
@@ -730,6 +788,12 @@ pub fn check_case(case: &Case, st: &mut Stats) -> Option<Found> {
 pub fn replay(case: &Value) -> Option<(String, String)> {
     if case["kind"].as_str() == Some("c08-interleaved") {
         return replay_interleaved(case);
+    }
+    if case["kind"].as_str() == Some("c08-consumption") {
+        let c = Case { pattern: case["pattern"].as_str()?.to_string(), text: case["text"].as_str()?.to_string(), fault: None, builder: case["builder"].as_u64().map(|x| x as usize), shift: false };
+        let re = c.build()?;
+        let full = real_history(&re, &c.text, &None).items;
+        return consumption_check(&re, &c.text, &full, case["taken"].as_u64()? as usize, case["j"].as_u64()? as usize).map(|f| (f.class, f.detail));
     }
     let c = Case::from_json(case)?;
     let mut st = Stats::default();
@@ -903,6 +967,15 @@ fn job(seed: u64, i: u64, keepout_listed: bool) -> (JobOut, Option<Violation>) {
                 out.st.keepout_overlaps_tolerated += 1;
                 continue;
             }
+            if found.is_none() && !keepout_in_look && rng.chance(1, 6) {
+                let taken = rng.below(ff.items.len() + 1);
+                let j = rng.below(3);
+                out.st.consumption_checks += 1;
+                if let Some(f) = consumption_check(&re, &case.text, &ff.items, taken, j) {
+                    let replay = json!({"kind": "c08-consumption", "pattern": pattern, "builder": builder, "text": case.text, "taken": taken, "j": j});
+                    return (out, Some(Violation::new(PROP, &f.class, f.detail, replay)));
+                }
+            }
             let nontrivial_ff = ff.items.len() >= 2 || ff.items.iter().any(|it| matches!(it, Item::Match(s, e) if s == e));
             let mut fired_any = false;
             // faults: search #j in {first, last, random}, k/d around that search's own thresholds
@@ -994,6 +1067,7 @@ fn add(a: &mut Stats, b: &Stats) {
     a.budget_skipped += b.budget_skipped;
     a.independent_g_models += b.independent_g_models;
     a.shifted_searches += b.shifted_searches;
+    a.consumption_checks += b.consumption_checks;
     a.shifted_not_comparable += b.shifted_not_comparable;
     a.keepout_overlaps_tolerated += b.keepout_overlaps_tolerated;
     a.digest ^= b.digest.rotate_left(7);
@@ -1095,6 +1169,7 @@ pub fn run(opts: &Opts) -> i32 {
             "histories_skipped_over_instruction_budget": st.budget_skipped,
             "histories_also_checked_against_flag_independent_G_model": st.independent_g_models,
             "continuing_searches_cross_checked_against_a_search_from_position_0": st.shifted_searches,
+            "histories_also_consumed_through_count_last_nth_after_some_next_calls": st.consumption_checks,
             "continuing_searches_not_comparable_that_way_different_vm_code": st.shifted_not_comparable,
             "generated_histories_showing_the_listed_keepout_overlap_signature": st.keepout_overlaps_tolerated,
         }));
